@@ -2,3 +2,5 @@
 pub mod alloc;
 pub mod engine;
 pub mod props;
+pub mod reader_model;
+pub mod source;
